@@ -3,7 +3,8 @@
    Model/C16Spec.v (invariant, documented closed-form algebra `spec_step`, admissible calls, known-finding classes).
    Value tracking (decrypted slots vs. shadow complex evaluation) and the float rounding of encode/decode are
    checked by the correspondence harness against the envelope of Model/C16Oracle.v; they are not theorems. *)
-From PV Require Import Base.MachineInt Model.C16Meta Model.C16Spec Proofs.C16Proofs.
+From Coq Require Import QArith.
+From PV Require Import Base.MachineInt Model.C16Meta Model.C16Spec Proofs.C16Proofs Proofs.C16Composite Proofs.C16Value.
 Open Scope Z_scope.
 
 (* State of /repo: after the repairs fd924ce (ct x ct scale), 3326e5c (rescale_into), e31e2c8 (mul_pt base2k),
@@ -66,6 +67,80 @@ Theorem C16_program_meta :
 Proof. exact program_meta. Qed.
 Print Assumptions C16_program_meta.
 
+(* ---- composites (add_many, mul_many, dot products over register lists) ---- *)
+Theorem C16_composite_meta_never_exceeds :
+  forall (chk : bool) (B : Z) (c : comp) (d : ct) (xs ys : list ct) (m : meta) (sz : Z) (sh : list Z),
+    1 <= B -> good B d -> Forall (good B) xs -> Forall (good B) ys ->
+    comp_step chk B c d xs ys = Done m sz sh -> good B (Ct m sz).
+Proof. exact comp_never_exceeds. Qed.
+Print Assumptions C16_composite_meta_never_exceeds.
+
+(* the single-input forms of add_many / mul_many still assign the metadata before the budget check (known class) *)
+Theorem C16_composite_fail_keeps_invariant_refuted :
+  exists (B : Z) (d a : ct) (e : ekind) (m : meta),
+    1 <= B /\ good B d /\ good B a /\
+    comp_step true B CAddMany d [a] [] = Fail e m /\ comp_step true B CMulMany d [a] [] = Fail e m /\
+    maxk B d < eff m.
+Proof. exact many_single_input_stale_refuted. Qed.
+Print Assumptions C16_composite_fail_keeps_invariant_refuted.
+
+(* ---- values over the exact phase model (Proofs/C16Value.v): the shifts handed to the GLWE layer make the
+        resulting metadata tell the truth about the value = phase * 2^log_budget ---- *)
+Theorem C16_value_unary_into :
+  forall (chk : bool) (B : Z) (d a b : ct) (m : meta) (sz : Z) (sh : list Z) (pa : Q) (o : op) (g : Z),
+    unary_gain o = Some g -> 0 <= lb (cm a) < two63 -> 0 <= ld (cm a) ->
+    meta_step chk B o d a b = Done m sz sh ->
+    (valQ (pa * two ^ (fold_right Z.add 0%Z sh)) (lb m) == valQ pa (lb (cm a)) * two ^ g)%Q.
+Proof. exact value_unary_into. Qed.
+Print Assumptions C16_value_unary_into.
+
+Theorem C16_value_add_sub_into :
+  forall (chk : bool) (B : Z) (d a b : ct) (m : meta) (sz : Z) (sh : list Z) (pa pb : Q),
+    meta_step chk B OLinInto d a b = Done m sz sh ->
+    let '(sa, sb) := lin_roles a b sh in
+    (valQ (pa * two ^ sa + pb * two ^ sb) (lb m) == valQ pa (lb (cm a)) + valQ pb (lb (cm b)))%Q /\
+    (valQ (pa * two ^ sa - pb * two ^ sb) (lb m) == valQ pa (lb (cm a)) - valQ pb (lb (cm b)))%Q.
+Proof. exact value_add_into. Qed.
+Print Assumptions C16_value_add_sub_into.
+
+Theorem C16_value_add_sub_assign :
+  forall (chk : bool) (B : Z) (d a b : ct) (m : meta) (sz : Z) (sh : list Z) (pa pd : Q),
+    meta_step chk B OLinAssign d a b = Done m sz sh ->
+    let '(sd, sa) := lin_assign_roles d a sh in
+    (valQ (pd * two ^ sd + pa * two ^ sa) (lb m) == valQ pd (lb (cm d)) + valQ pa (lb (cm a)))%Q /\
+    (valQ (pd * two ^ sd - pa * two ^ sa) (lb m) == valQ pd (lb (cm d)) - valQ pa (lb (cm a)))%Q.
+Proof. exact value_add_assign. Qed.
+Print Assumptions C16_value_add_sub_assign.
+
+Theorem C16_value_rescale_assign :
+  forall (chk : bool) (B : Z) (d a b : ct) (m : meta) (sz : Z) (sh : list Z) (pd : Q) (k : Z),
+    meta_step chk B (ORescaleAssign k) d a b = Done m sz sh ->
+    (valQ (pd * two ^ k) (lb m) == valQ pd (lb (cm d)))%Q.
+Proof. exact value_rescale_assign. Qed.
+Print Assumptions C16_value_rescale_assign.
+
+Theorem C16_value_mul_pow2_assign :
+  forall (chk : bool) (B : Z) (d a b : ct) (m : meta) (sz : Z) (sh : list Z) (pd : Q) (bits : Z),
+    meta_step chk B (OMulPow2Assign bits) d a b = Done m sz sh ->
+    (valQ (pd * two ^ bits) (lb m) == valQ pd (lb (cm d)) * two ^ bits)%Q.
+Proof. exact value_mul_pow2_assign. Qed.
+Print Assumptions C16_value_mul_pow2_assign.
+
+(* the statement that the defect repaired in fd924ce violated *)
+Theorem C16_value_mul_into :
+  forall (chk : bool) (B : Z) (d a b : ct) (m : meta) (sz : Z) (sh : list Z) (pa pb : Q),
+    meta_step chk B OMulInto d a b = Done m sz sh ->
+    (valQ (pa * pb * two ^ (fold_right Z.add 0%Z sh)) (lb m) == valQ pa (lb (cm a)) * valQ pb (lb (cm b)))%Q.
+Proof. exact value_mul_into. Qed.
+Print Assumptions C16_value_mul_into.
+
+(* ... and that the fused path of ckks_dot_product_ct still violates (known class) *)
+Theorem C16_value_dot_product_ct_refuted :
+  exists (B : Z) (d x y : ct) (m : meta) (sz : Z) (c : Z),
+    comp_step true B CDotCt d [x; x] [y; y] = Done m sz [c] /\ c + lb m <> lb (cm x) + lb (cm y).
+Proof. exact dot_ct_scale_refuted. Qed.
+Print Assumptions C16_value_dot_product_ct_refuted.
+
 (* the hypotheses are satisfiable *)
 Example C16_example_step :
   let B := 19 in let d := Ct (Meta 0 0) 6 in let a := c8 30 122 in
@@ -90,3 +165,10 @@ Example C16_example_program :
   1 <= B /\ Forall (good B) rs /\ wf_prog B p /\
   snd (exec_prog true B rs p) = [c8 30 122; Ct (Meta 30 92) 7; Ct (Meta 30 103) 7].
 Proof. exact example_program. Qed.
+
+Example C16_example_composites :
+  let B := 19 in let x := Ct (Meta 30 122) 8 in let d := Ct (Meta 0 0) 8 in
+  done_with (comp_step true B CMulMany d [x; x; x] []) (Meta 30 62) 8 /\
+  done_with (comp_step true B CDotCt d [x; x] [x; x]) (Meta 30 92) 8 /\
+  done_with (comp_step true B CAddMany d [x; x; x] []) (Meta 30 122) 8.
+Proof. exact example_composites. Qed.
